@@ -29,6 +29,28 @@
 // the write. The L1-head feed is drained by the scheduler whenever the client is blocked or has
 // stopped (at most one SetL1Head lies between two provider calls, so nothing is lost): Feed events
 // are part of the trace, and what the feed announced last must be what the database holds.
+//
+// The accessor (the accessor dimension of L1.tla).  The property is about the head the node REPORTS,
+// Blockchain.L1Head(), not only about the database record.  (1) Every Restart builds a NEW Blockchain
+// object on the same store, as a process restart does.  (2) Whenever the client is blocked the
+// harness compares what the accessor answers with the record read straight from the store
+// (l1:accessor:*).  (3) A free-running reader brackets every accessor call by two direct reads of
+// the record: the answer must lie between them.  (4) Steered overlap: the store can hold a Get of
+// the L1-head key after it has completed and before it returns, and a Put of it before it is
+// applied.  In a share of the incarnations the first call of the accessor is made by a reader
+// goroutine that is parked in its Get while the client performs a head-changing SetL1Head
+// (ReadStart .. ReadEnd in the trace); in others the client is parked in front of its Put while a
+// complete read runs.  A read entered after SetL1Head has returned must report the new head.
+//
+// Error kinds (the error-kind dimension of L1.tla): a failing answer is a transport error, a
+// timeout (context.DeadlineExceeded), the real eth.ErrNotFound, or context.Canceled out of the
+// provider; in geth mode a JSON-RPC error or a null answer to eth_getBlockByNumber("finalized"),
+// which the real provider maps to eth.ErrNotFound.  After a failing FinalisedHeight answer inside
+// setL1Head the client's next call must be FinalisedHeight again and the head must be untouched.
+//
+// Directed scenarios (TestL1Directed) run the same loop under a director instead of the seeded
+// scheduler: every error kind while non-finalised commits are buffered, then a reorg of the
+// non-finalised block; the restart / overlapping-read schedules.
 package l1
 
 import (
@@ -69,11 +91,11 @@ import (
 
 // bounds of the scripted node; L1Trace.cfg must be at least as large
 const (
-	maxBlocks   = 10
-	maxEvents   = 10
-	maxPerBlock = 2
-	maxReorgs   = 3
-	maxFail     = 4
+	maxBlocks    = 10
+	maxEvents    = 10
+	maxPerBlock  = 2
+	maxReorgs    = 3
+	maxFail      = 4
 	maxWriteFail = 2 // failed writes of the L1-head record per run
 )
 
@@ -83,16 +105,34 @@ type event struct {
 	Y  int    `json:"y"`
 	Q  int    `json:"q"`
 	W  int    `json:"w"` // RetFin: 1 = the store is armed to fail the next Put of the L1-head record
+	K  string `json:"k"` // Ret*: kind of the failure ("" for a successful answer)
+}
+
+// the kinds of failing answers (ErrKinds of L1.tla)
+var errKinds = []string{"transport", "timeout", "notfound", "cancel"}
+
+// kindErr is the error a provider method returns for a failure of that kind (scripted mode).
+func kindErr(kind string) error {
+	switch kind {
+	case "timeout":
+		return fmt.Errorf("scripted node: no answer in time: %w", context.DeadlineExceeded)
+	case "notfound": // what GethL1StateProvider.FinalisedHeight returns for a null "finalized" block
+		return fmt.Errorf("finalised block not found: %w", eth.ErrNotFound)
+	case "cancel":
+		return fmt.Errorf("scripted node: request aborted: %w", context.Canceled)
+	}
+	return errors.New("scripted failure: connection reset by peer")
 }
 
 type input struct {
-	Traces   int   `json:"traces"`
-	Seed     int64 `json:"seed"`
-	Only     int   `json:"only"`      // >0: run just this trace index (replay)
-	Rounds   int   `json:"rounds"`    // scheduler rounds per trace
+	Traces   int    `json:"traces"`
+	Seed     int64  `json:"seed"`
+	Only     int    `json:"only"`      // >0: run just this trace index (replay)
+	Rounds   int    `json:"rounds"`    // scheduler rounds per trace
 	TraceOut string `json:"trace_out"` // file name (in scratch) for the concatenated trace
-	Lag      bool  `json:"lag"`       // directed scenario WITHOUT the finality-after-notices assumption
-	Geth     bool  `json:"geth"`      // serve the scripted node through go-ethereum rpc to the real GethL1StateProvider
+	Lag      bool   `json:"lag"`       // directed scenario WITHOUT the finality-after-notices assumption
+	Geth     bool   `json:"geth"`      // serve the scripted node through go-ethereum rpc to the real GethL1StateProvider
+	Scenario string `json:"scenario"`  // TestL1Directed: run just this scenario (replay)
 }
 
 // ---------------------------------------------------------------------------- gated provider
@@ -103,6 +143,7 @@ type gresp struct {
 	events []*jl1.StateUpdate
 	sub    jl1.Subscription
 	err    error
+	null   bool // geth mode: answer eth_getBlockByNumber("finalized") with null (the provider reports eth.ErrNotFound)
 }
 
 type gcall struct {
@@ -317,6 +358,9 @@ func (n *ethNode) GetBlockByNumber(number rpc.BlockNumber, _ bool) (map[string]a
 	if err != nil {
 		return nil, err
 	}
+	if r.null { // "the node cannot name a finalised block"
+		return nil, nil
+	}
 	zero32 := "0x" + strings.Repeat("0", 64)
 	return map[string]any{
 		"parentHash": zero32, "sha3Uncles": zero32, "miner": "0x" + strings.Repeat("0", 40),
@@ -437,8 +481,8 @@ type run struct {
 	closed bool
 	bc     *blockchain.Blockchain
 
-	base     int // the head a restarted client found in the database (0 none)
-	registry sync.Map // event id -> [2]uint64{Starknet block number, state root}; read by the concurrent reader
+	base     int        // the head a restarted client found in the database (0 none)
+	registry sync.Map   // event id -> [2]uint64{Starknet block number, state root}; read by the concurrent reader
 	kept     []retained // scripted mode: what the harness handed to the client
 	heads    []headSeen // what OnNewL1Head announced (pointer + copy)
 	feedIDs  []int      // what the L1-head feed delivered
@@ -455,23 +499,101 @@ type run struct {
 	writeFailed int // event id of the head whose Put was failed since the scheduler last looked (0 none)
 	wfails      int // failed writes so far
 	prevStored  int // the expected head before the setL1Head that is being answered
+
+	// the accessor
+	noAccessor    bool // the first call of Blockchain.L1Head() of this incarnation is reserved for the steered reader
+	accessorReads int
+	lastReadL2    uint64 // Starknet block number the accessor reported last (reads at rest)
+	raceNote      string // what was steered before, for the violation text
 }
 
 // headStore is the database under the Blockchain: the shared fault-injecting store with the outcome
-// of a Put of the L1-head record observed (and logged) at the Put itself, the linearisation point.
+// of a Put of the L1-head record observed (and logged) at the Put itself, the linearisation point,
+// and with two gates on the L1-head key: a Get can be held after it has completed and before it
+// returns, a Put before it is applied.
 type headStore struct {
 	*faultkv.Store
 	r *run
+
+	gmu     sync.Mutex
+	getGate *kvGate
+	putGate *kvGate
+}
+
+// kvGate: the operation reports the head it read / is about to write on parked and waits for release.
+type kvGate struct {
+	parked  chan int
+	release chan struct{}
+}
+
+func newGate() *kvGate { return &kvGate{parked: make(chan int, 1), release: make(chan struct{})} }
+
+func (s *headStore) armGet() *kvGate {
+	g := newGate()
+	s.gmu.Lock()
+	s.getGate = g
+	s.gmu.Unlock()
+	return g
+}
+
+func (s *headStore) armPut() *kvGate {
+	g := newGate()
+	s.gmu.Lock()
+	s.putGate = g
+	s.gmu.Unlock()
+	return g
+}
+
+// disarmGates removes gates nobody has reached.
+func (s *headStore) disarmGates() {
+	s.gmu.Lock()
+	s.getGate, s.putGate = nil, nil
+	s.gmu.Unlock()
+}
+
+func decodeHeadID(v []byte) int {
+	var h core.L1Head
+	if encoder.Unmarshal(v, &h) != nil {
+		return -1
+	}
+	return headID(h)
+}
+
+func (s *headStore) Get(k []byte, cb func([]byte) error) error {
+	if !bytes.Equal(k, db.L1Height.Key()) {
+		return s.Store.Get(k, cb)
+	}
+	s.gmu.Lock()
+	g := s.getGate
+	s.getGate = nil
+	s.gmu.Unlock()
+	id := 0
+	err := s.Store.Get(k, func(v []byte) error {
+		id = decodeHeadID(v)
+		return cb(v)
+	})
+	if g != nil { // the Get is complete; hold its return
+		g.parked <- id
+		<-g.release
+	}
+	return err
 }
 
 func (s *headStore) Put(k, v []byte) error {
-	err := s.Store.Put(k, v)
-	if errors.Is(err, faultkv.ErrInjected) && bytes.Equal(k, db.L1Height.Key()) {
-		var h core.L1Head
-		id := -1
-		if encoder.Unmarshal(v, &h) == nil {
-			id = headID(h)
+	isHead := bytes.Equal(k, db.L1Height.Key())
+	if isHead {
+		s.gmu.Lock()
+		g := s.putGate
+		s.putGate = nil
+		s.gmu.Unlock()
+		if g != nil { // hold the Put before it is applied
+			g.parked <- decodeHeadID(v)
+			<-g.release
 		}
+	}
+	err := s.Store.Put(k, v)
+	if errors.Is(err, faultkv.ErrInjected) && isHead {
+		id := decodeHeadID(v)
 		s.r.log(event{Ev: "WriteFail", X: id})
 		s.r.mu.Lock()
 		s.r.writeFailed = id
@@ -717,19 +839,96 @@ type headSeen struct {
 	hash, root felt.Felt
 }
 
-// checkHead compares the database with the property; called while the client is blocked.
-func (r *run) checkHead(lastFin int) *violation {
+// record reads the L1-head record straight from the store: no accessor, no gate.
+func (r *run) record() (core.L1Head, int, error) {
+	h, err := core.GetL1Head(r.store.Store)
+	if errors.Is(err, db.ErrKeyNotFound) {
+		return h, 0, nil
+	}
+	if err != nil {
+		return h, 0, err
+	}
+	return h, headID(h), nil
+}
+
+func sameHead(a, b core.L1Head) bool {
+	if (a.BlockHash == nil) != (b.BlockHash == nil) || (a.StateRoot == nil) != (b.StateRoot == nil) {
+		return false
+	}
+	return a.BlockNumber == b.BlockNumber && (a.BlockHash == nil || a.BlockHash.Equal(b.BlockHash)) &&
+		(a.StateRoot == nil || a.StateRoot.Equal(b.StateRoot))
+}
+
+func (r *run) desc(e int) string {
+	if e == 0 {
+		return "none"
+	}
+	if _, ok := r.l1of[e]; !ok {
+		return fmt.Sprintf("an unknown commit (hash id %d)", e)
+	}
+	return fmt.Sprintf("event %d (L1 block %d, Starknet block %d)", e, r.l1of[e], r.l2of[e])
+}
+
+// accessorVsRecord: nothing writes while the client is blocked or has stopped, and no read of a
+// reader goroutine is in flight, so a call of Blockchain.L1Head() entered now must answer exactly the
+// record (ReportedIsRecorded / AccessorIsRecord of L1.tla).  logIt: the read is a Read event of the trace.
+func (r *run) accessorVsRecord(logIt bool) *violation {
+	if r.noAccessor {
+		return nil // the first call of the accessor in this incarnation is reserved for the steered reader
+	}
 	h, err := r.bc.L1Head()
-	got := 0
+	acc := 0
 	if err == nil {
-		got = headID(h)
+		acc = headID(h)
 	} else if !errors.Is(err, db.ErrKeyNotFound) {
+		return &violation{"l1:accessor:unreadable", "Blockchain.L1Head(): " + err.Error()}
+	}
+	if logIt {
+		r.log(event{Ev: "Read", X: acc})
+	}
+	r.accessorReads++
+	rh, rec, rerr := r.record()
+	if rerr != nil {
+		return &violation{"l1:head-unreadable", rerr.Error()}
+	}
+	if acc == rec && (acc == 0 || sameHead(h, rh)) {
+		if acc != 0 {
+			if h.BlockNumber < r.lastReadL2 {
+				return &violation{"l1:accessor:regressed", fmt.Sprintf("consecutive calls of Blockchain.L1Head() went from Starknet block %d to %d", r.lastReadL2, h.BlockNumber)}
+			}
+			r.lastReadL2 = h.BlockNumber
+		}
+		return nil
+	}
+	kind := "other-commit"
+	switch {
+	case acc == 0:
+		kind = "missing"
+	case rec == 0:
+		kind = "unrecorded"
+	case acc == rec:
+		kind = "fields"
+	case h.BlockNumber < rh.BlockNumber:
+		kind = "older-than-record"
+	case h.BlockNumber > rh.BlockNumber:
+		kind = "newer-than-record"
+	}
+	return &violation{"l1:accessor:" + kind, fmt.Sprintf(
+		"with the client at rest and no other read in flight Blockchain.L1Head() reports %s while the database record is %s%s",
+		r.desc(acc), r.desc(rec), r.raceNote)}
+}
+
+// checkHead compares the database record with the property, and the accessor with the record;
+// called while the client is blocked or has stopped.
+func (r *run) checkHead(lastFin int) *violation {
+	av := r.accessorVsRecord(true)
+	h, got, err := r.record()
+	if err != nil {
 		return &violation{"l1:head-unreadable", err.Error()}
 	}
-	r.log(event{Ev: "Read", X: got})
 	if got == r.expStored {
 		if got != 0 {
-			if h.BlockNumber != uint64(r.l2of[got]) || !h.StateRoot.Equal(new(felt.Felt).SetUint64(uint64(1000+got))) {
+			if h.BlockNumber != uint64(r.l2of[got]) || h.StateRoot == nil || !h.StateRoot.Equal(new(felt.Felt).SetUint64(uint64(1000+got))) {
 				return &violation{"l1:head-fields", fmt.Sprintf("head of event %d carries number %d root %s", got, h.BlockNumber, h.StateRoot)}
 			}
 			if h.BlockNumber < r.lastHeadL2 {
@@ -737,13 +936,7 @@ func (r *run) checkHead(lastFin int) *violation {
 			}
 			r.lastHeadL2 = h.BlockNumber
 		}
-		return nil
-	}
-	desc := func(e int) string {
-		if e == 0 {
-			return "none"
-		}
-		return fmt.Sprintf("event %d (L1 block %d, Starknet block %d)", e, r.l1of[e], r.l2of[e])
+		return av
 	}
 	kind := "not-best"
 	switch {
@@ -762,7 +955,7 @@ func (r *run) checkHead(lastFin int) *violation {
 	}
 	return &violation{"l1:stored-head:" + kind, fmt.Sprintf(
 		"after setL1Head with finalised height %d the database holds %s, the property demands %s",
-		lastFin, desc(got), desc(r.expStored))}
+		lastFin, r.desc(got), r.desc(r.expStored))}
 }
 
 func (r *run) isMerged(e int) bool {
@@ -793,7 +986,38 @@ type outcome struct {
 
 const gateTimeout = 20 * time.Second
 
-func oneRun(seed int64, idx, rounds int, lag, geth bool) outcome {
+// decision is what a director wants done while the client is blocked in one provider call.
+type decision struct {
+	restart bool     // stop the client here and start a new node process on the same database
+	acts    []func() // actions of the scripted node
+	kind    string   // "" = answer the call; else the kind of failure
+	done    bool     // wind down from here
+	race    string   // around this FinalisedHeight answer of a setL1Head: "get" = a reader is held in its Get, "put" = the client is held before its Put while a read runs
+}
+
+// director replaces the seeded scheduler in a directed scenario.
+type director struct {
+	name         string
+	reserve      bool // after a restart the first call of the accessor is kept for a reader steered with decision.race "get"
+	reserveFirst bool // ... and so is the first call in the first process
+	prelude      func(r *run)
+	plan         func(r *run, c *gcall, q int, setHead bool) decision
+}
+
+type readRes struct {
+	h        core.L1Head
+	err      error
+	panicked any
+}
+
+func readID(res readRes) int {
+	if res.err != nil {
+		return 0
+	}
+	return headID(res.h)
+}
+
+func oneRun(seed int64, idx, rounds int, lag, geth bool, dir *director) outcome {
 	rng := rand.New(rand.NewSource(seed*1_000_003 + int64(idx)))
 	if geth {
 		rng = rand.New(rand.NewSource(seed*1_000_003 + int64(idx) + 500_000))
@@ -804,24 +1028,27 @@ func oneRun(seed int64, idx, rounds int, lag, geth bool) outcome {
 	out := outcome{stats: st}
 	r.log(event{Ev: "Reset", X: r.chunk})
 
-	// some history before the client starts (what catch-up has to find)
-	// (commits tend to sit in the older blocks, so that the backward scan needs several chunks)
-	for n := rng.Intn(8); n > 0; n-- {
-		k := 0
-		if rng.Intn(2+r.top()) < 2 {
-			k = 1 + rng.Intn(maxPerBlock)
+	if dir != nil {
+		dir.prelude(r)
+	} else {
+		// some history before the client starts (what catch-up has to find)
+		// (commits tend to sit in the older blocks, so that the backward scan needs several chunks)
+		for n := rng.Intn(8); n > 0; n-- {
+			k := 0
+			if rng.Intn(2+r.top()) < 2 {
+				k = 1 + rng.Intn(maxPerBlock)
+			}
+			if r.nEv+k > maxEvents-4 {
+				k = 0
+			}
+			r.mine(k)
 		}
-		if r.nEv+k > maxEvents-4 {
-			k = 0
+		if r.top() > 0 && rng.Intn(4) > 0 {
+			r.finalise(1 + rng.Intn(1+r.top()/2))
 		}
-		r.mine(k)
-	}
-	if r.top() > 0 && rng.Intn(4) > 0 {
-		r.finalise(1 + rng.Intn(1+r.top()/2))
 	}
 
 	r.store = &headStore{Store: faultkv.Wrap(memory.New()), r: r}
-	r.bc = blockchain.New(r.store, &networks.Sepolia)
 	p := &provider{calls: make(chan *gcall)}
 	// geth mode: every client incarnation gets its own in-process node endpoint (rpc server + websocket
 	// listener). A request the OLD client managed to put on the wire while it was being cancelled must
@@ -863,10 +1090,8 @@ func oneRun(seed int64, idx, rounds int, lag, geth bool) outcome {
 		r.mu.Unlock()
 	}}
 
-	// ---- observers that live as long as the run (class "concurrency"): a reader of
-	// Blockchain.L1Head() racing with the client's writes, and a subscriber of the L1-head feed
-	stopObservers := make(chan struct{})
-	var observers sync.WaitGroup
+	// ---- the node process: a Blockchain object on the store, a subscriber of its L1-head feed and a
+	// free-running reader of its accessor (class "concurrency"). A restart closes it and opens a new one.
 	var obsMu sync.Mutex
 	var obsViol *violation
 	observe := func(v *violation) {
@@ -876,58 +1101,109 @@ func oneRun(seed int64, idx, rounds int, lag, geth bool) outcome {
 		}
 		obsMu.Unlock()
 	}
-	observers.Add(1)
-	go func() {
-		defer observers.Done()
-		defer func() {
-			if p := recover(); p != nil {
-				observe(&violation{"l1:concurrent-read:panic", fmt.Sprint("Blockchain.L1Head() panicked under a concurrent writer: ", p)})
+	l2of := func(id int) (uint64, bool) { // safe for the reader goroutines
+		f, ok := r.registry.Load(id)
+		if !ok {
+			return 0, false
+		}
+		return f.([2]uint64)[0], true
+	}
+	var (
+		feedSub    blockchain.L1HeadSubscription
+		stopObs    chan struct{}
+		observers  sync.WaitGroup
+		obsRunning bool
+	)
+	openChain := func() {
+		r.bc = blockchain.New(r.store, &networks.Sepolia)
+		feedSub = r.bc.SubscribeL1Head()
+		stopObs = make(chan struct{})
+		obsRunning = false
+	}
+	closeChain := func() {
+		close(stopObs)
+		observers.Wait()
+		feedSub.Unsubscribe()
+	}
+	// startObserver: calls of Blockchain.L1Head() racing with the client's writes. Every call is
+	// bracketed by two direct reads of the record: the answer is a value the record held in between
+	// (the record only moves forward, so: not older than the first, not newer than the second).
+	startObserver := func() {
+		if obsRunning {
+			return
+		}
+		obsRunning = true
+		bc, stop := r.bc, stopObs
+		observers.Add(1)
+		go func() {
+			defer observers.Done()
+			defer func() {
+				if p := recover(); p != nil {
+					observe(&violation{"l1:concurrent-read:panic", fmt.Sprint("Blockchain.L1Head() panicked under a concurrent writer: ", p)})
+				}
+			}()
+			var lastL2 uint64
+			seenAny := false
+			for n := 0; ; n++ {
+				select {
+				case <-stop:
+					return
+				default:
+				}
+				_, lo, lerr := r.record()
+				h, err := bc.L1Head()
+				_, hi, herr := r.record()
+				val := 0
+				switch {
+				case errors.Is(err, db.ErrKeyNotFound):
+					if seenAny {
+						observe(&violation{"l1:concurrent-read:vanished", "a concurrent reader found no L1 head after it had seen one"})
+						return
+					}
+				case err != nil:
+					observe(&violation{"l1:concurrent-read:error", err.Error()})
+					return
+				default:
+					val = headID(h)
+					f, known := r.registry.Load(val)
+					if !known || h.StateRoot == nil {
+						observe(&violation{"l1:concurrent-read:unknown-commit", fmt.Sprintf("a concurrent reader saw a head that is no commit of the L1 node: number %d hash id %d", h.BlockNumber, val)})
+						return
+					}
+					want := f.([2]uint64)
+					if h.BlockNumber != want[0] || !h.StateRoot.Equal(new(felt.Felt).SetUint64(want[1])) {
+						observe(&violation{"l1:concurrent-read:torn", fmt.Sprintf("a concurrent reader saw a head mixing two commits: number %d hash id %d root %s", h.BlockNumber, val, h.StateRoot)})
+						return
+					}
+					if seenAny && h.BlockNumber < lastL2 {
+						observe(&violation{"l1:concurrent-read:regressed", fmt.Sprintf("a concurrent reader saw the Starknet block number go from %d to %d", lastL2, h.BlockNumber)})
+						return
+					}
+					seenAny, lastL2 = true, h.BlockNumber
+				}
+				if lerr == nil && herr == nil && val != lo && val != hi {
+					vn, _ := l2of(val)
+					ln, _ := l2of(lo)
+					hn, _ := l2of(hi)
+					switch {
+					case lo != 0 && (val == 0 || vn < ln):
+						observe(&violation{"l1:concurrent-read:older-than-record-at-start", fmt.Sprintf(
+							"a call of Blockchain.L1Head() entered while the database record was commit %d (Starknet block %d) returned commit %d (Starknet block %d; 0 = none)", lo, ln, val, vn)})
+						return
+					case val != 0 && (hi == 0 || vn > hn):
+						observe(&violation{"l1:concurrent-read:newer-than-record-at-end", fmt.Sprintf(
+							"a call of Blockchain.L1Head() returned commit %d (Starknet block %d) while the database record, read after it returned, was commit %d (Starknet block %d; 0 = none)", val, vn, hi, hn)})
+						return
+					}
+				}
+				if n%8 == 0 {
+					time.Sleep(5 * time.Microsecond)
+				}
 			}
 		}()
-		var lastL2 uint64
-		seenAny := false
-		for n := 0; ; n++ {
-			select {
-			case <-stopObservers:
-				return
-			default:
-			}
-			h, err := r.bc.L1Head()
-			switch {
-			case errors.Is(err, db.ErrKeyNotFound):
-				if seenAny {
-					observe(&violation{"l1:concurrent-read:vanished", "a concurrent reader found no L1 head after it had seen one"})
-					return
-				}
-			case err != nil:
-				observe(&violation{"l1:concurrent-read:error", err.Error()})
-				return
-			default:
-				id := headID(h)
-				f, known := r.registry.Load(id)
-				if !known || h.StateRoot == nil {
-					observe(&violation{"l1:concurrent-read:unknown-commit", fmt.Sprintf("a concurrent reader saw a head that is no commit of the L1 node: number %d hash id %d", h.BlockNumber, id)})
-					return
-				}
-				want := f.([2]uint64)
-				if h.BlockNumber != want[0] || !h.StateRoot.Equal(new(felt.Felt).SetUint64(want[1])) {
-					observe(&violation{"l1:concurrent-read:torn", fmt.Sprintf("a concurrent reader saw a head mixing two commits: number %d hash id %d root %s", h.BlockNumber, id, h.StateRoot)})
-					return
-				}
-				if seenAny && h.BlockNumber < lastL2 {
-					observe(&violation{"l1:concurrent-read:regressed", fmt.Sprintf("a concurrent reader saw the Starknet block number go from %d to %d", lastL2, h.BlockNumber)})
-					return
-				}
-				seenAny, lastL2 = true, h.BlockNumber
-			}
-			if n%8 == 0 {
-				time.Sleep(5 * time.Microsecond)
-			}
-		}
-	}()
+	}
 	// the L1-head feed: taken by the scheduler while the client is blocked or has stopped (the
 	// subscription buffers one head and the client sends at most one between two provider calls)
-	feedSub := r.bc.SubscribeL1Head()
 	drainFeed := func() *violation {
 		last := -1
 		for {
@@ -951,15 +1227,118 @@ func oneRun(seed int64, idx, rounds int, lag, geth bool) outcome {
 			return nil
 		}
 		// write first, announce second: what the feed announced last is what the database holds
-		got := 0
-		if h, err := r.bc.L1Head(); err == nil {
-			got = headID(h)
-		}
+		_, got, _ := r.record()
 		if got != last {
 			return &violation{"l1:head-feed:announced-not-recorded", fmt.Sprintf(
 				"the L1-head feed announced event %d while the database holds event %d (0 = none): the head was announced without being recorded", last, got)}
 		}
 		return nil
+	}
+
+	// ---- steered overlap of a read with the client's SetL1Head
+	const (
+		raceNone    = iota
+		racePlanned // the first call of the accessor in this incarnation will be the steered reader's
+		raceParked  // the reader sits in its Get, complete but not returned
+		raceDone
+	)
+	race := raceNone
+	var (
+		parkedGate *kvGate
+		parkedRes  chan readRes
+		parkedID   int
+	)
+	spawnReader := func() chan readRes {
+		bc := r.bc
+		ch := make(chan readRes, 1)
+		go func() {
+			defer func() {
+				if p := recover(); p != nil {
+					ch <- readRes{panicked: p}
+				}
+			}()
+			h, err := bc.L1Head()
+			ch <- readRes{h: h, err: err}
+		}()
+		return ch
+	}
+	readFault := func(res readRes) *violation {
+		if res.panicked != nil {
+			return &violation{"l1:accessor:panic", fmt.Sprint("Blockchain.L1Head() panicked: ", res.panicked)}
+		}
+		if res.err != nil && !errors.Is(res.err, db.ErrKeyNotFound) {
+			return &violation{"l1:accessor:unreadable", "Blockchain.L1Head(): " + res.err.Error()}
+		}
+		return nil
+	}
+	// startRace: called while the client is blocked in the FinalisedHeight call whose answer will make
+	// it record another head. Returns a harness problem, if any.
+	startRace := func() string {
+		g := r.store.armGet()
+		resCh := spawnReader()
+		select {
+		case id := <-g.parked:
+			r.log(event{Ev: "ReadStart", X: id})
+			parkedGate, parkedRes, parkedID = g, resCh, id
+			race = raceParked
+			st["overlapping_reads"]++
+			if r.base != 0 {
+				st["overlapping_reads_after_restart_with_head"]++
+			}
+		case res := <-resCh:
+			// the accessor answered without a Get of the record: a read that overlaps nothing
+			r.store.disarmGates()
+			race = raceDone
+			r.noAccessor = false
+			st["steered_reads_without_get"]++
+			if v := readFault(res); v != nil {
+				out.viol = v
+				return ""
+			}
+			acc := readID(res)
+			r.log(event{Ev: "Read", X: acc})
+			if _, rec, _ := r.record(); acc != rec {
+				out.viol = &violation{"l1:accessor:first-read-not-the-record", fmt.Sprintf(
+					"the first call of Blockchain.L1Head() in this process answered %s without reading the database, whose record is %s", r.desc(acc), r.desc(rec))}
+			}
+		case <-time.After(gateTimeout):
+			return "the steered reader neither reached the store nor returned"
+		}
+		return ""
+	}
+	// endRace: the client is blocked again (or has stopped): its SetL1Head is over. Let the reader return.
+	endRace := func(logIt bool) string {
+		close(parkedGate.release)
+		var res readRes
+		select {
+		case res = <-parkedRes:
+		case <-time.After(gateTimeout):
+			return "the steered reader did not return after its Get was released"
+		}
+		race = raceDone
+		r.noAccessor = false
+		if !logIt {
+			return ""
+		}
+		if v := readFault(res); v != nil && out.viol == nil {
+			out.viol = v
+			return ""
+		}
+		val := readID(res)
+		r.log(event{Ev: "ReadEnd", X: val})
+		_, rec, _ := r.record()
+		r.raceNote = fmt.Sprintf("; before that a reader's call of L1Head() had read %s from the database, was held there while the client recorded %s, and returned %s",
+			r.desc(parkedID), r.desc(rec), r.desc(val))
+		if val != parkedID && val != rec && out.viol == nil {
+			out.viol = &violation{"l1:accessor:overlapping-read:never-recorded", fmt.Sprintf(
+				"a call of Blockchain.L1Head() that overlapped a SetL1Head (record %s before, %s after) returned %s",
+				r.desc(parkedID), r.desc(rec), r.desc(val))}
+		}
+		if rec != parkedID {
+			st["overlapping_reads_across_a_write"]++
+		}
+		startObserver()
+		return ""
 	}
 
 	type runEnd struct {
@@ -971,7 +1350,7 @@ func oneRun(seed int64, idx, rounds int, lag, geth bool) outcome {
 		done   chan runEnd
 	)
 	// startClient creates a NEW client (and, in geth mode, a new real provider: Run closes its
-	// provider when it returns) on the same database.
+	// provider when it returns) on the current Blockchain.
 	startClient := func() string {
 		var ctx context.Context
 		ctx, cancel = context.WithCancel(context.Background())
@@ -1020,13 +1399,18 @@ func oneRun(seed int64, idx, rounds int, lag, geth bool) outcome {
 		r.mu.Lock()
 		r.closed = true
 		r.mu.Unlock()
+		if race == raceParked {
+			if msg := endRace(false); msg != "" && out.viol == nil {
+				out.broken = msg
+			}
+		}
+		r.store.disarmGates()
 		if msg := stopClient(); msg != "" && out.viol == nil {
 			out.broken = msg
 		}
-		close(stopObservers)
-		feedSub.Unsubscribe()
-		observers.Wait()
+		closeChain()
 		out.events = r.events
+		st["accessor_reads"] += r.accessorReads
 		if out.viol != nil {
 			return
 		}
@@ -1068,33 +1452,62 @@ func oneRun(seed int64, idx, rounds int, lag, geth bool) outcome {
 		out.viol = obsViol
 		obsMu.Unlock()
 	}
+	// planRace decides, for a new incarnation, whether its first call of the accessor is reserved for
+	// a reader that is held in its Get across the first head-changing SetL1Head.
+	planRace := func() {
+		want := false
+		switch {
+		case dir != nil:
+			want = (dir.reserve && r.expStored != 0) || (dir.reserveFirst && r.expStored == 0 && r.base == 0)
+		case r.expStored != 0: // a restart with a head on disk
+			want = rng.Intn(4) != 0
+		default:
+			want = rng.Intn(3) == 0
+		}
+		if want {
+			race, r.noAccessor = racePlanned, true
+			st["overlapping_reads_planned"]++
+		} else {
+			race, r.noAccessor = raceNone, false
+			startObserver()
+		}
+	}
+	openChain()
+	planRace()
 	if msg := startClient(); msg != "" {
 		out.broken = msg
-		close(stopObservers)
-		feedSub.Unsubscribe()
-		observers.Wait()
+		closeChain()
 		return out
 	}
 
 	restarted := false
 	lastFin := 0
-	checkPending := false    // a setL1Head completed since the last check
+	checkPending := false      // a setL1Head completed since the last check
+	checkAfterError := false   // a FinalisedHeight answer inside a setL1Head failed since the last check
+	expectRetry := ""          // kind of that failure while the retry has not been seen
 	nextFinIsSnapshot := false // the next FinalisedHeight call is catch-up's snapshot, not a setL1Head
 	finalDone := false
 	armed := false // the store fails the next Put of the head record
 	live := false  // this client has subscribed: its setL1Head calls are those of the ticker
-	// newIncarnation forgets everything the old client object knew and starts a new client on the
-	// same database (the Restart action of L1.tla).
+	dirDone := false
+	// newIncarnation forgets everything the old node process knew and starts a new one - a new
+	// Blockchain object, a new client - on the same database (the Restart action of L1.tla).
 	newIncarnation := func() string {
+		closeChain()
 		r.base = r.expStored
 		r.ch, r.sub, r.subUp = nil, nil, false
 		r.sent, r.consumed, r.filterApplied = nil, 0, nil
 		r.delivered = map[int]bool{}
 		if r.base != 0 {
 			r.delivered[r.base] = true
+			st["restarts_with_head_on_disk"]++
 		}
 		r.forceFail = false
 		nextFinIsSnapshot, checkPending, live = false, false, false
+		checkAfterError, expectRetry = false, ""
+		r.raceNote = ""
+		openChain()
+		planRace()
 		return startClient()
 	}
 	phase := func() string {
@@ -1103,11 +1516,29 @@ func oneRun(seed int64, idx, rounds int, lag, geth bool) outcome {
 		}
 		return "tick"
 	}
+	var heldCall *gcall // a call that arrived while the scheduler was waiting for something else
+	var heldEnd *runEnd // Run's return, likewise
 	for round := 0; ; round++ {
 		var c *gcall
-		select {
-		case c = <-p.calls:
-		case e := <-done:
+		var ended *runEnd
+		switch {
+		case heldCall != nil:
+			c, heldCall = heldCall, nil
+		case heldEnd != nil:
+			ended, heldEnd = heldEnd, nil
+		default:
+			select {
+			case c = <-p.calls:
+			case e := <-done:
+				ended = &e
+			case <-time.After(gateTimeout):
+				out.broken = "client did not reach a provider call (quiescence timeout)"
+				finish()
+				return out
+			}
+		}
+		if ended != nil {
+			e := *ended
 			// ---- Run returned by itself
 			if e.panicked != nil {
 				done <- e // finish() collects it
@@ -1116,9 +1547,9 @@ func oneRun(seed int64, idx, rounds int, lag, geth bool) outcome {
 				return out
 			}
 			cancel()
-			ended := make(chan runEnd, 1) // finish() waits for a Run that has returned already
-			ended <- e
-			done = ended
+			endedCh := make(chan runEnd, 1) // finish() waits for a Run that has returned already
+			endedCh <- e
+			done = endedCh
 			r.store.Disarm()
 			armed = false
 			if v := drainFeed(); v != nil {
@@ -1133,8 +1564,12 @@ func oneRun(seed int64, idx, rounds int, lag, geth bool) outcome {
 			if failed == 0 {
 				// the specification (StopOnlyOnWriteFailure) knows one reason for Run to return while its
 				// context is live: the head could not be written
+				why := ""
+				if expectRetry != "" {
+					why = fmt.Sprintf(" (the last answer of FinalisedHeight was a failure of kind %q)", expectRetry)
+				}
 				out.viol = &violation{"l1:client-stopped:no-write-failure", fmt.Sprintf(
-					"l1.Client.Run returned by itself (error: %v) although no write of the L1 head had failed", e.err)}
+					"l1.Client.Run returned by itself (error: %v) although no write of the L1 head had failed%s", e.err, why)}
 				finish()
 				return out
 			}
@@ -1147,11 +1582,25 @@ func oneRun(seed int64, idx, rounds int, lag, geth bool) outcome {
 			if e.err != nil && errors.Is(e.err, faultkv.ErrInjected) {
 				st["stops_with_the_store_error"]++
 			}
+			if race == raceParked {
+				if msg := endRace(true); msg != "" {
+					out.broken = msg
+				}
+				if out.broken != "" || out.viol != nil {
+					finish()
+					return out
+				}
+			}
 			// the failed write left the record as it was
 			r.expStored = r.prevStored
 			checkPending = false
 			if v := r.checkHead(lastFin); v != nil {
-				v.key = "l1:head-write-failed:record-changed:" + strings.TrimPrefix(v.key, "l1:stored-head:")
+				if strings.HasPrefix(v.key, "l1:stored-head:") {
+					v.key = "l1:head-write-failed:record-changed:" + strings.TrimPrefix(v.key, "l1:stored-head:")
+				} else if strings.HasPrefix(v.key, "l1:accessor:") {
+					v.key = "l1:head-write-failed:" + strings.TrimPrefix(v.key, "l1:")
+					v.what = fmt.Sprintf("the Put of the L1-head record (event %d) failed and the client stopped; %s", failed, v.what)
+				}
 				out.viol = v
 				finish()
 				return out
@@ -1165,10 +1614,6 @@ func oneRun(seed int64, idx, rounds int, lag, geth bool) outcome {
 				return out
 			}
 			continue
-		case <-time.After(gateTimeout):
-			out.broken = "client did not reach a provider call (quiescence timeout)"
-			finish()
-			return out
 		}
 		// ---- the client is blocked: what it did since its last call
 		if armed {
@@ -1200,24 +1645,70 @@ func oneRun(seed int64, idx, rounds int, lag, geth bool) outcome {
 		default:
 			r.log(event{Ev: "Call" + c.m, Q: q})
 		}
-		if checkPending || rng.Intn(4) == 0 {
+		if race == raceParked { // the SetL1Head the reader overlapped is over
+			if msg := endRace(true); msg != "" {
+				out.broken = msg
+			}
+			if out.broken != "" || out.viol != nil {
+				finish()
+				return out
+			}
+		}
+		if expectRetry != "" {
+			// every failing FinalisedHeight answer inside setL1Head is retried, whatever its kind
+			// (FailedFinIsRetried): the helper calls FinalisedHeight again
+			if c.m != "Fin" {
+				out.viol = &violation{"l1:finalised-height-error:" + expectRetry + ":not-retried:" + c.m, fmt.Sprintf(
+					"FinalisedHeight failed with an error of kind %q inside setL1Head (%s path); instead of asking again the client called %s",
+					expectRetry, phase(), c.m)}
+				finish()
+				return out
+			}
+			st["fin_errors_retried_"+expectRetry]++
+			expectRetry = ""
+		}
+		if checkPending || checkAfterError || rng.Intn(4) == 0 {
 			if checkPending {
 				st["setheads_checked"]++
 			}
-			checkPending = false
+			afterError := checkAfterError && !checkPending
+			checkPending, checkAfterError = false, false
 			if v := r.checkHead(lastFin); v != nil {
 				if failedWrite != 0 {
 					// the conditional property: a client may stop on a failed write, it may not go on with a stale record
-					v.key = "l1:head-write-failed:running-with-stale-record:" + phase()
+					if strings.HasPrefix(v.key, "l1:accessor:") {
+						v.key = "l1:head-write-failed:" + strings.TrimPrefix(v.key, "l1:")
+					} else {
+						v.key = "l1:head-write-failed:running-with-stale-record:" + phase()
+					}
 					v.what = fmt.Sprintf("the Put of the L1-head record (event %d) failed, the client kept running (next call: %s) and %s",
 						failedWrite, c.m, v.what)
+				} else if afterError && strings.HasPrefix(v.key, "l1:stored-head:") {
+					v.key = "l1:finalised-height-error:head-moved:" + strings.TrimPrefix(v.key, "l1:stored-head:")
+					v.what = "a FinalisedHeight answer inside setL1Head failed (the L1 node reported no finalised height) and yet the head changed: " + v.what
 				}
 				out.viol = v
 				finish()
 				return out
 			}
+		} else if v := r.accessorVsRecord(false); v != nil { // the accessor is compared with the record at every step
+			if failedWrite != 0 {
+				v.key = "l1:head-write-failed:" + strings.TrimPrefix(v.key, "l1:")
+			}
+			out.viol = v
+			finish()
+			return out
+		}
+		setHead := c.m == "Fin" && !nextFinIsSnapshot
+		var d decision
+		if dir != nil && !dirDone {
+			d = dir.plan(r, c, q, setHead)
+			dirDone = d.done
 		}
 		winding := round >= rounds
+		if dir != nil {
+			winding = dirDone
+		}
 		if winding && c.m == "Fin" && !nextFinIsSnapshot && r.ch != nil && q == 0 {
 			if finalDone {
 				// quiescent end: everything sent was merged and the setL1Head after that was checked
@@ -1240,8 +1731,12 @@ func oneRun(seed int64, idx, rounds int, lag, geth bool) outcome {
 			return out
 		}
 
-		// ---- restart: stop this client while it is blocked in the call, start a new one on the same database
-		if !winding && !restarted && round > 2 && rng.Intn(40) == 0 {
+		// ---- restart: stop this node process while its client is blocked in the call, start a new one on the same database
+		wantRestart := d.restart
+		if dir == nil {
+			wantRestart = !winding && !restarted && round > 2 && rng.Intn(40) == 0
+		}
+		if wantRestart {
 			restarted = true
 			st["restarts"]++
 			r.log(event{Ev: "Restart"})
@@ -1267,7 +1762,15 @@ func oneRun(seed int64, idx, rounds int, lag, geth bool) outcome {
 		}
 
 		// ---- the scripted node acts
-		if !winding {
+		for _, a := range d.acts {
+			a()
+			if r.broken != "" {
+				out.broken = r.broken
+				finish()
+				return out
+			}
+		}
+		if dir == nil && !winding {
 			for n := rng.Intn(4); n > 0; n-- {
 				switch a := rng.Intn(10); {
 				case a < 3 && r.top() < maxBlocks:
@@ -1320,37 +1823,81 @@ func oneRun(seed int64, idx, rounds int, lag, geth bool) outcome {
 		if r.ch == nil {
 			failOneIn = 16 // keep most catch-up scans alive
 		}
-		fail := r.forceFail || (!winding && r.fails < maxFail && rng.Intn(failOneIn) == 0)
+		dropped := r.forceFail // geth mode: the connection is gone, the pending call cannot succeed
+		fail := dropped
+		kind := ""
+		if dir != nil {
+			fail = fail || d.kind != ""
+			kind = d.kind
+		} else if !fail && !winding && r.fails < maxFail && rng.Intn(failOneIn) == 0 {
+			fail = true
+			kind = errKinds[rng.Intn(len(errKinds))]
+			if c.m == "Fin" && rng.Intn(3) == 0 {
+				kind = "notfound" // the one kind a provider documents for this call
+			}
+		}
 		r.forceFail = false
 		resp := gresp{}
 		okv := 1
 		if fail {
+			if dropped || kind == "" || (r.node != nil && !(kind == "notfound" && c.m == "Fin")) {
+				kind = "transport" // geth mode knows two kinds: a JSON-RPC / connection error and the null answer
+			}
 			r.fails++
 			st["failed_calls"]++
+			st["failed_calls_"+kind]++
 			okv = 0
-			resp.err = errors.New("scripted failure")
+			resp.err = kindErr(kind)
+			if r.node != nil && kind == "notfound" {
+				resp.err, resp.null = nil, true
+			}
 		}
+		putRace := false
 		switch c.m {
 		case "ChainID":
-			r.log(event{Ev: "RetChainID", X: okv})
+			r.log(event{Ev: "RetChainID", X: okv, K: kind})
 		case "Latest":
 			resp.val = uint64(r.top())
-			r.log(event{Ev: "RetLatest", X: okv, Y: r.top()})
+			r.log(event{Ev: "RetLatest", X: okv, Y: r.top(), K: kind})
 			nextFinIsSnapshot = !fail
 		case "Fin":
 			resp.val = uint64(r.fin)
 			w := 0
 			if nextFinIsSnapshot {
 				nextFinIsSnapshot = false
-			} else if !fail { // this answer completes a setL1Head
+			} else if fail {
+				// a failing answer inside setL1Head: retried, head untouched
+				expectRetry, checkAfterError = kind, true
+				st["fin_errors_in_sethead_"+kind]++
+				if len(r.live()) > 0 && r.best(r.top()) != r.best(r.fin) {
+					st["fin_errors_with_unfinalised_commits_buffered"]++
+				}
+			} else { // this answer completes a setL1Head
 				lastFin = r.fin
 				r.prevStored = r.expStored
 				r.expStored = r.best(r.fin)
 				checkPending = true
 				st["setheads"]++
-				// storage fault: the Put of the head record, if this setL1Head gets that far, fails
-				// (more often when the monitor expects the head to move: then there is a Put)
-				if !winding && r.wfails < maxWriteFail {
+				moves := r.expStored != r.prevStored && r.expStored != 0
+				wantGet := race == racePlanned && moves && (dir == nil || d.race == "get")
+				wantPut := moves && !wantGet && !r.noAccessor && ((dir == nil && !winding && rng.Intn(6) == 0) || (dir != nil && d.race == "put"))
+				switch {
+				case wantGet:
+					// a reader enters L1Head() now and is held in its Get until the client has recorded the new head
+					if msg := startRace(); msg != "" {
+						out.broken = msg
+					}
+					if out.broken != "" || out.viol != nil {
+						r.log(event{Ev: "RetFin", X: okv, Y: r.fin, W: 0, K: kind})
+						c.resp <- resp
+						finish()
+						return out
+					}
+				case wantPut:
+					putRace = true
+				case dir == nil && !winding && r.wfails < maxWriteFail:
+					// storage fault: the Put of the head record, if this setL1Head gets that far, fails
+					// (more often when the monitor expects the head to move: then there is a Put)
 					oneIn := 24
 					if r.expStored != r.prevStored {
 						oneIn = 5
@@ -1362,7 +1909,7 @@ func oneRun(seed int64, idx, rounds int, lag, geth bool) outcome {
 					}
 				}
 			}
-			r.log(event{Ev: "RetFin", X: okv, Y: r.fin, W: w})
+			r.log(event{Ev: "RetFin", X: okv, Y: r.fin, W: w, K: kind})
 		case "Filter":
 			var got []int
 			if !fail {
@@ -1379,7 +1926,7 @@ func oneRun(seed int64, idx, rounds int, lag, geth bool) outcome {
 				}
 				st["filter_chunks"]++
 			}
-			r.log(event{Ev: "RetFilter", X: okv, Y: len(got)})
+			r.log(event{Ev: "RetFilter", X: okv, Y: len(got), K: kind})
 		case "Watch":
 			if !fail {
 				if r.node == nil {
@@ -1391,9 +1938,41 @@ func oneRun(seed int64, idx, rounds int, lag, geth bool) outcome {
 				r.subPos = r.top()
 				live = true
 			}
-			r.log(event{Ev: "RetWatch", X: okv})
+			r.log(event{Ev: "RetWatch", X: okv, K: kind})
+		}
+		var pg *kvGate
+		if putRace {
+			pg = r.store.armPut()
 		}
 		c.resp <- resp
+		if putRace {
+			// the client is on its way into SetL1Head: hold it in front of the Put of the record and let a
+			// complete call of the accessor run there (it linearises before the write: the old record),
+			// then let the Put go. The call after SetL1Head has returned is made at the next arrival.
+			select {
+			case <-pg.parked:
+				st["reads_before_a_held_put"]++
+				v := r.accessorVsRecord(false)
+				close(pg.release)
+				if v != nil {
+					v.what += " (the client was held in front of its Put of the new head)"
+					out.viol = v
+					finish()
+					return out
+				}
+				r.raceNote = "; before that a complete call of L1Head() ran while the client was held in front of its Put of the new head"
+			case nc := <-p.calls: // no Put after all
+				r.store.disarmGates()
+				heldCall = nc
+			case e := <-done:
+				r.store.disarmGates()
+				heldEnd = &e
+			case <-time.After(gateTimeout):
+				out.broken = "neither a Put of the L1 head nor another call after a setL1Head answer"
+				finish()
+				return out
+			}
+		}
 	}
 }
 
@@ -1447,7 +2026,7 @@ func TestL1Record(t *testing.T) {
 		go func(i int) {
 			defer wg.Done()
 			defer func() { <-sem }()
-			results[i-lo] = oneRun(seed, i, rounds, in.Lag, in.Geth)
+			results[i-lo] = oneRun(seed, i, rounds, in.Lag, in.Geth, nil)
 		}(i)
 	}
 	wg.Wait()
@@ -1482,6 +2061,184 @@ func TestL1Record(t *testing.T) {
 	}
 	out.Count("events_recorded", nEvents)
 	out.Done(0, nEvents)
+}
+
+// ---------------------------------------------------------------------------- directed scenarios
+
+// errKindScenario: the finalised height stays at 1 while two commits A (L1 block 3) and B (L1 block 4)
+// are delivered and merged; three FinalisedHeight polls in a row fail with the given kind (nothing may
+// be recorded: the L1 node has reported no finalised height above 1); an answered poll (still 1): no
+// head; B's block is reorged away (a perfectly legal reorg of a non-finalised block), the notice is
+// merged; the node finalises block 4: the head must be A.
+func errKindScenario(kind string) *director {
+	phase, n := 0, 0
+	return &director{
+		name:    "finalised-height-fails:" + kind,
+		prelude: func(r *run) { r.mine(0); r.mine(0); r.finalise(1) },
+		plan: func(r *run, c *gcall, q int, setHead bool) decision {
+			if !setHead || r.ch == nil {
+				return decision{}
+			}
+			switch phase {
+			case 0:
+				phase = 1
+				return decision{acts: []func(){func() { r.mine(1) }, r.push, func() { r.mine(1) }, r.push}}
+			case 1:
+				if q != 0 {
+					return decision{} // not merged yet
+				}
+				if n++; n == 3 {
+					phase = 2
+				}
+				return decision{kind: kind}
+			case 2:
+				phase = 3
+				return decision{acts: []func(){func() { r.reorg(r.top() - 1) }}}
+			case 3:
+				if q != 0 {
+					return decision{} // the removal notice is still queued
+				}
+				phase = 4
+				return decision{acts: []func(){func() { r.mine(0) }, func() { r.finalise(r.top()) }}, done: true}
+			}
+			return decision{done: true}
+		},
+	}
+}
+
+// restartRaceScenario: a first node process records commit A and merges a newer commit B; the
+// process is restarted with A on disk; when the new process reaches the setL1Head that ends its
+// catch-up scan B has become final.  how = "get": the first call of the accessor in the new process
+// is a reader's, held in its database Get (it has read A) while the client records B, then released.
+// how = "put": the accessor has been called before; the client is held in front of its Put of B while
+// a complete call of the accessor runs.  Either way a call entered after SetL1Head returned reports B.
+func restartRaceScenario(how string) *director {
+	phase := 0
+	return &director{
+		name:    "restart-read-overlaps-sethead:" + how,
+		reserve: how == "get",
+		prelude: func(r *run) { r.mine(1); r.mine(0); r.finalise(2) },
+		plan: func(r *run, c *gcall, q int, setHead bool) decision {
+			switch phase {
+			case 0:
+				if !setHead || r.ch == nil {
+					return decision{}
+				}
+				phase = 1
+				return decision{acts: []func(){func() { r.mine(1) }, r.push}}
+			case 1:
+				if !setHead || q != 0 {
+					return decision{}
+				}
+				phase = 2
+				return decision{restart: true}
+			case 2:
+				if !setHead {
+					return decision{}
+				}
+				phase = 3
+				return decision{acts: []func(){func() { r.finalise(r.top()) }}, race: how}
+			}
+			return decision{done: true}
+		},
+	}
+}
+
+// noHeadRaceScenario: a fresh database; the first call of the accessor overlaps the very first
+// SetL1Head (the reader's Get finds no record).  A call entered afterwards reports the head.
+func noHeadRaceScenario() *director {
+	phase := 0
+	return &director{
+		name:         "first-read-overlaps-first-sethead",
+		reserveFirst: true,
+		prelude:      func(r *run) { r.mine(0); r.mine(0) },
+		plan: func(r *run, c *gcall, q int, setHead bool) decision {
+			if !setHead || r.ch == nil {
+				return decision{}
+			}
+			switch phase {
+			case 0:
+				phase = 1
+				return decision{acts: []func(){func() { r.mine(1) }, r.push}}
+			case 1:
+				if q != 0 {
+					return decision{}
+				}
+				phase = 2
+				return decision{acts: []func(){func() { r.finalise(r.top()) }}, race: "get"}
+			}
+			return decision{done: true}
+		},
+	}
+}
+
+func directedScenarios(geth bool) []*director {
+	var out []*director
+	for _, k := range errKinds {
+		if geth && k != "transport" && k != "notfound" {
+			continue // behind the real provider: a JSON-RPC error and the null answer
+		}
+		out = append(out, errKindScenario(k))
+	}
+	return append(out, restartRaceScenario("get"), restartRaceScenario("put"), noHeadRaceScenario())
+}
+
+func TestL1Directed(t *testing.T) {
+	if !vh.Enabled() {
+		t.Skip()
+	}
+	var in input
+	if err := vh.Input(&in); err != nil {
+		t.Fatal(err)
+	}
+	out := vh.NewResult()
+	defer out.Write()
+	seed := in.Seed
+	if seed == 0 {
+		seed = vh.Seed()
+	}
+	name := in.TraceOut
+	if name == "" {
+		name = "l1directed.ndjson"
+	}
+	f, err := os.Create(filepath.Join(vh.Scratch(), name))
+	if err != nil {
+		t.Fatal(err)
+	}
+	defer f.Close()
+	enc := json.NewEncoder(f)
+	nEvents, nRuns := 0, 0
+	for i, d := range directedScenarios(in.Geth) {
+		if in.Scenario != "" && in.Scenario != d.name {
+			continue
+		}
+		o := oneRun(seed, 900_000+i, 0, false, in.Geth, d)
+		if o.broken != "" {
+			out.Count("broken_runs", 1)
+			out.Sample(vh.J{"broken": o.broken, "scenario": d.name})
+			continue
+		}
+		for _, e := range o.events {
+			if err := enc.Encode(e); err != nil {
+				t.Fatal(err)
+			}
+		}
+		nEvents += len(o.events)
+		nRuns++
+		for k, v := range o.stats {
+			out.Count(k, v)
+		}
+		out.Count("scenario:"+d.name, 1)
+		if o.viol != nil {
+			out.Diverge(vh.Divergence{
+				Key: o.viol.key, What: "scenario " + d.name + ": " + o.viol.what, Step: len(o.events),
+				Input:    vh.J{"seed": seed, "scenario": d.name, "geth": in.Geth},
+				Observed: o.events,
+			})
+		}
+		out.Count("runs_recorded", 1)
+	}
+	out.Done(nRuns, nEvents)
 }
 
 // TestL1LagScenario is a DIRECTED schedule outside the registered timing assumption
